@@ -328,7 +328,10 @@ dot = Fn(S, 'do_command_substitution_for_dot', props=('C11',),
     pre_rewrites=COMMON_RW,
     add_params='Tracked(lg): Tracked<&mut SubLog>',
     ghost_args={'from_line': 'Tracked(lg)', 'run_pipeline': 'Tracked(lg)'},
-    hints={'fn-entry': 'note_pass(lg, 0);'},
+    hints={'fn-entry': 'note_pass(lg, 0); ;;; RAW: let ghost mut g_out: Seq<char> = Seq::empty();',
+           'before-text:if !cr.stderr.is_empty() {': 'g_out = cr.stdout@;',
+           # the word becomes what the command wrote, without its trailing newlines and with nothing else removed
+           'before-call:vx_um_insert': 'LABEL:C11.dot.the_word_becomes_the_output_without_its_trailing_newlines: assert(new_token@ == strip_nl(g_out));'},
     ensures=[
         # only whole words written between backquotes are rewritten here; their tag (the backquote) stays, so no later pass reads them as syntax
         ('C11+C13+C01.dot.only_backquoted_words_change', frame(DCOND2.replace('T', 'old(tokens)@[k]'))),
